@@ -13,6 +13,7 @@ import (
 	"strings"
 	"sync"
 	"testing"
+	"time"
 
 	"github.com/redis/rueidis"
 	"github.com/redis/rueidis/rueidisprob"
@@ -114,6 +115,57 @@ func (d *driver) fresh(prefix string) string {
 	}
 }
 
+// edgeItems are items that item-handling code is most likely to treat specially although the statement quantifies over
+// every item alike: the empty string (which also hashes to h1=h2=0), NUL / whitespace / control-only items, one-byte
+// items, items that read like numbers, nil or a RESP / Lua token, invalid UTF-8, and lengths around the 16-byte block
+// size of the 128-bit hash.
+var edgeItems = []string{
+	" ", "\x00", "\x00\x00", "\n", "\r\n", "\t", "0", "1", "-1", "00", "a", "\xff", "\xc3\x28", "nil", "false", "+OK", "$-1", "*0", "1e3", "4294967296",
+	strings.Repeat("\x00", 15), strings.Repeat("\x00", 16), strings.Repeat("\x00", 17), strings.Repeat("z", 15), strings.Repeat("z", 16),
+	strings.Repeat("z", 17), strings.Repeat("z", 31), strings.Repeat("z", 32), strings.Repeat("z", 33),
+}
+
+var isEdge = func() map[string]bool {
+	m := map[string]bool{"": true}
+	for _, x := range edgeItems {
+		m[x] = true
+	}
+	return m
+}()
+
+// item is fresh(prefix) most of the time and otherwise an edge item (half of those the empty string). Edge items are
+// not unique: one may already be a member (then it is a re-add / a member query), the reference set decides.
+func (d *driver) item(prefix string) string {
+	if d.rng.Intn(7) != 0 {
+		return d.fresh(prefix)
+	}
+	if d.rng.Intn(2) == 0 {
+		return ""
+	}
+	return edgeItems[d.rng.Intn(len(edgeItems))]
+}
+
+// itemShape describes what is special about the item at position i of a call, for violation keys.
+func itemShape(keys []string, i int) string {
+	switch {
+	case keys[i] == "":
+		return " item=empty-string"
+	case isEdge[keys[i]]:
+		return " item=edge:" + strconv.Quote(keys[i])
+	}
+	for _, x := range keys[:i] {
+		if x == "" {
+			return " item=after-an-empty-string-in-the-same-call"
+		}
+	}
+	for _, x := range keys[:i] {
+		if isEdge[x] {
+			return " item=after-an-edge-item-in-the-same-call"
+		}
+	}
+	return ""
+}
+
 type opRec struct {
 	Op   string   `json:"op"`
 	Keys []string `json:"keys,omitempty"`
@@ -157,6 +209,9 @@ func (d *driver) runConfig(c cfg, nops int, big bool) string {
 	srv.OnEvent = tp.hook
 	opt := drv.Option(srv, addr)
 	opt.DisableCache = true
+	// no wall-clock dependence: on a loaded machine the first BITFIELD into a 2^29-bit filter can outlast the default 10s
+	// read deadline, which used to end that history early (recorded as inconclusive) at a load-dependent point
+	opt.ConnWriteTimeout = 10 * time.Minute
 	client, err := rueidis.NewClient(opt)
 	if err != nil {
 		run.Inconclusive("client: " + err.Error())
@@ -255,6 +310,19 @@ func (d *driver) runConfig(c cfg, nops int, big bool) string {
 		}
 		run.Observe("adds", 1)
 		run.Observe("items_added", int64(len(keys)))
+		for i, x := range keys {
+			if x == "" {
+				run.Observe("empty_items_added", 1)
+				if multi && len(keys) > 1 {
+					run.Observe("empty_items_added_inside_batches", 1)
+					if i < len(keys)-1 {
+						run.Observe("empty_items_added_before_other_batch_items", 1)
+					}
+				}
+			} else if isEdge[x] {
+				run.Observe("edge_items_added", 1)
+			}
+		}
 		tp.mu.Lock()
 		k = tp.addK
 		tp.mu.Unlock()
@@ -287,14 +355,26 @@ func (d *driver) runConfig(c cfg, nops int, big bool) string {
 			run.Violation("misaligned-answers", key()+" ExistsMulti", map[string]any{"config": c.String(), "keys": short(keys), "answers": res, "history": hist})
 			return false
 		}
+		emptyBefore, edgeBefore := false, false // an empty / edge item stands earlier in this call
 		for i, x := range keys {
 			if members[x] {
 				run.Observe("member_answers_checked", 1)
 				if nn > 0 {
 					run.Observe("multi_positions_checked", 1)
 				}
+				switch {
+				case x == "":
+					run.Observe("empty_item_member_answers_checked", 1)
+				case isEdge[x]:
+					run.Observe("edge_item_member_answers_checked", 1)
+				}
+				if x != "" && emptyBefore {
+					run.Observe("member_answers_checked_after_an_empty_item_in_the_call", 1)
+				} else if !isEdge[x] && edgeBefore {
+					run.Observe("member_answers_checked_after_an_edge_item_in_the_call", 1)
+				}
 				if !res[i] {
-					run.Violation("false-negative", key(), map[string]any{"config": c.String(), "call": "ExistsMulti", "position": i, "key": strconv.Quote(x), "keys": short(keys), "answers": res, "history": hist})
+					run.Violation("false-negative", key()+itemShape(keys, i), map[string]any{"config": c.String(), "call": "ExistsMulti", "position": i, "key": strconv.Quote(x), "keys": short(keys), "answers": res, "history": hist})
 					return false
 				}
 			} else if res[i] {
@@ -302,6 +382,8 @@ func (d *driver) runConfig(c cfg, nops int, big bool) string {
 			} else {
 				run.Observe("true_negatives", 1)
 			}
+			emptyBefore = emptyBefore || x == ""
+			edgeBefore = edgeBefore || isEdge[x]
 		}
 		return true
 	}
@@ -319,8 +401,14 @@ func (d *driver) runConfig(c cfg, nops int, big bool) string {
 		run.Case(fmt.Sprintf("%s ro=%v k=%s Exists member=%v", base, c.ro, k, members[x]), members[x])
 		if members[x] {
 			run.Observe("member_answers_checked", 1)
+			switch {
+			case x == "":
+				run.Observe("empty_item_member_answers_checked", 1)
+			case isEdge[x]:
+				run.Observe("edge_item_member_answers_checked", 1)
+			}
 			if !res {
-				run.Violation("false-negative", key(), map[string]any{"config": c.String(), "call": "Exists", "key": strconv.Quote(x), "answer": res, "history": hist})
+				run.Violation("false-negative", key()+itemShape([]string{x}, 0), map[string]any{"config": c.String(), "call": "Exists", "key": strconv.Quote(x), "answer": res, "history": hist})
 				return false
 			}
 		} else if res {
@@ -389,7 +477,7 @@ func (d *driver) runConfig(c cfg, nops int, big bool) string {
 		}
 		switch p := d.rng.Intn(100); {
 		case p < 15 || len(memberList) == 0:
-			x := d.fresh("m")
+			x := d.item("m")
 			if d.rng.Intn(6) == 0 && len(memberList) > 0 {
 				x = pickMember() // re-adding is allowed
 			}
@@ -401,7 +489,7 @@ func (d *driver) runConfig(c cfg, nops int, big bool) string {
 				if d.rng.Intn(8) == 0 {
 					keys[j] = pickMember()
 				} else {
-					keys[j] = d.fresh("m")
+					keys[j] = d.item("m")
 				}
 			}
 			if d.rng.Intn(5) == 0 {
@@ -411,13 +499,13 @@ func (d *driver) runConfig(c cfg, nops int, big bool) string {
 		case p < 50:
 			ok = checkOne(pickMember())
 		case p < 55:
-			ok = checkOne(d.fresh("absent"))
+			ok = checkOne(d.item("absent"))
 		case p < 85:
 			n := 1 + d.rng.Intn(maxItems)
 			keys := make([]string, n)
 			for j := range keys {
 				if d.rng.Intn(3) == 0 {
-					keys[j] = d.fresh("absent")
+					keys[j] = d.item("absent")
 				} else {
 					keys[j] = pickMember()
 				}
@@ -458,7 +546,7 @@ func (d *driver) runConfig(c cfg, nops int, big bool) string {
 func TestC35(t *testing.T) {
 	run := mon.Start(t, "C35", "exploration",
 		"every grid point (expectedNumberOfItems in {0,1,2,3,10,100,1e4,1e6,1e7,+one near the 2^32-bit limit in the thorough tier} x falsePositiveRate in {5e-324,1e-300,1e-12,1e-6,0.01,0.5,0.7,0.7071,0.7072,0.75,0.9,0.99,0.999999,1-2^-53,1,1+2^-52,0,-0.5,NaN,+Inf} x read-only-script option) that NewBloomFilter accepts gets a random history of "+
-			"Add/AddMulti (1-16 items, re-adds, duplicates, binary/long/unicode keys)/Exists/ExistsMulti (members and fresh keys mixed in random positions)/Count/Reset/Delete against a reference set, about one add in five answered by the server with an error reply (OOM, READONLY, WRONGTYPE, script error) instead of being executed (an Add that returns nil then still counts as added), the shipped Lua scripts executed by fakeredis+minilua; plus a characterisation sweep (n x rate around 1/sqrt(2)) with one Add+Exists+ExistsMulti each; "+
+			"Add/AddMulti (1-16 items, re-adds, duplicates, binary/long/unicode keys; about one item in seven is a degenerate item: the empty string (half of them) or a NUL/whitespace/one-byte/number-like/RESP-token/invalid-UTF-8/hash-block-boundary-length item, alone or at any position of a batch, as a member or as a never-added key)/Exists/ExistsMulti (members and fresh keys mixed in random positions)/Count/Reset/Delete against a reference set, about one add in five answered by the server with an error reply (OOM, READONLY, WRONGTYPE, script error) instead of being executed (an Add that returns nil then still counts as added), the shipped Lua scripts executed by fakeredis+minilua; plus a characterisation sweep (n x rate around 1/sqrt(2)) with one Add+Exists+ExistsMulti each; "+
 			"a case = (n, rate, option, hash functions seen on the wire, call kind, how many members / fresh keys were queried), non-trivial when a member was queried (or Count had a positive predecessor)")
 	defer run.Finish()
 	run.Assume("fakeredis BITFIELD/BITFIELD_RO/SET/DEL/INCRBY/GET and minilua execute the shipped scripts as Redis 7 would (harness self tests)",
@@ -569,5 +657,6 @@ func TestC35(t *testing.T) {
 		}
 	}
 	run.Extra("rejected_configs", rejected)
-	run.Require("member_answers_checked", "multi_positions_checked", "count_checks", "resets_and_deletes", "adds_refused_by_server_and_reported", "bitfield_set_in_scripts", "bitfield_get_in_scripts", "bitfield_ro_get_in_scripts", "evalsha_ro_received", "true_negatives")
+	run.Require("member_answers_checked", "multi_positions_checked", "count_checks", "resets_and_deletes", "adds_refused_by_server_and_reported", "bitfield_set_in_scripts", "bitfield_get_in_scripts", "bitfield_ro_get_in_scripts", "evalsha_ro_received", "true_negatives",
+		"empty_item_member_answers_checked", "member_answers_checked_after_an_empty_item_in_the_call", "edge_item_member_answers_checked")
 }
